@@ -107,6 +107,8 @@ pub fn closed_form<T: Arith>(rule: usize, x0: i64, x1: i64, y1: &T, x2: i64, y2:
 }
 
 pub const GAPS: [i64; 4] = [1, 30, 365, 3650];
+/// awkward but finite positive values: near the largest double, subnormal, and far apart neighbours
+pub const VEXTREME: [f64; 6] = [1.0e300, 1.0e-300, 1.0e150, 1.0e-150, 1.0, 5.0e-324];
 pub const VSETS: [[f64; 6]; 4] = [
     [1.0, 0.99, 0.95, 0.8, 0.5, 0.3],
     [1.0, 1.02, 0.97, 1.3, 0.6, 0.9],
